@@ -189,7 +189,7 @@ func (x *gixIndex) CompactWait() {
 
 // Quiesce waits until no partition has a compaction running or pending. Observations are made
 // at such step boundaries only: tsi1 hands out series sets that alias the mmap of index files
-// (see /verif/findings/C14-series-id-set-iterators-outlive-their-index-file-mapping.md), so
+// (see /verif/findings/C14-candidate-series-id-sets-alias-unmapped-index-files.md), so
 // iterating while a background compaction retires files can fault; that hazard is reported
 // separately and must not decide these checks by scheduling luck.
 func (x *gixIndex) Quiesce() bool {
